@@ -117,6 +117,10 @@ pub fn main(opts: &Opts) {
         }
         batches.push(sc);
     }
+    if opts.get("pattern").map(|p| p == "aba").unwrap_or(false) {
+        // consecutive batches over disjoint scene sets, then the first set again (pipelined submission)
+        batches = vec![vec![1, 2], vec![3, 4], vec![1, 2], vec![3, 4], vec![1, 2]];
+    }
     let getter = opts.get("getter").is_some();
     let ctl = Ctl::install();
     ctl.set_delays(seed, opts.u64("delay-us", 500));
